@@ -119,6 +119,17 @@ pub struct Program {
     pub log_rules: Option<Vec<Rule>>,
     /// state the caller puts into the root scope before `run`
     pub pre_ops: Vec<Op>,
+    /// the caller handles an error of the execute phase and executes the heuristic again on the
+    /// same state (`config.heuristic().execute(..)`, no re-initialisation): what a failed
+    /// execution left behind (counters, memories, scopes) is what the second one starts from
+    #[serde(default)]
+    pub resume: bool,
+}
+
+/// The execute phase had begun (the caller can resume) and the run ended with an ordinary error.
+pub fn resumable(trace: &[Ev], end: &RunEnd) -> bool {
+    matches!(end, RunEnd::Injected { .. } | RunEnd::NotFound | RunEnd::RequiredMissing | RunEnd::Other(_))
+        && trace.iter().any(|e| matches!(e, Ev::Enter { phase: Phase::Exec, .. } | Ev::Eval { .. }))
 }
 
 #[derive(Clone, Copy, Debug, PartialEq, Eq, Serialize, Deserialize)]
@@ -665,9 +676,20 @@ impl<'p> Interp<'p> {
     }
 
     pub fn run(&mut self, p: &Program) -> RunEnd {
+        let first = self.run_once(p, false);
+        if p.resume && resumable(&self.trace, &first) {
+            self.probe("execution resumed on the same state after an error");
+            return self.run_once(p, true);
+        }
+        first
+    }
+
+    fn run_once(&mut self, p: &Program, resume: bool) -> RunEnd {
         let r = (|| {
-            self.init_nodes(&p.root)?;
-            self.require_nodes(&p.root)?;
+            if !resume {
+                self.init_nodes(&p.root)?;
+                self.require_nodes(&p.root)?;
+            }
             self.exec_nodes(&p.root)
         })();
         match r {
@@ -884,7 +906,7 @@ impl<'p> Interp<'p> {
         self.model
             .scopes
             .iter()
-            .map(|m| m.iter().filter(|(k, _)| **k < 32 && **k != TAG_LOGCFG).map(|(k, v)| (*k, *v)).collect())
+            .map(|m| m.iter().filter(|(k, _)| **k < 32).map(|(k, v)| (*k, *v)).collect())
             .collect()
     }
 
@@ -999,7 +1021,7 @@ impl<'p> Interp<'p> {
 }
 
 /// Model tag of the `LogConfig` (presence only).
-pub const TAG_LOGCFG: u8 = 14;
+pub use super::ops::TAG_LOGCFG;
 
 // ---------------------------------------------------------------------------------------------
 // executing the real configuration
@@ -1029,11 +1051,21 @@ pub fn run_real(p: &Program, fault: Option<Fault>, snaps: bool, clone_config: bo
     HOOK_SHARED.with(|h| *h.borrow_mut() = Some(sh.clone()));
     let r = crate::framework::guarded(|| config.run(&EP, &mut state));
     HOOK_SHARED.with(|h| *h.borrow_mut() = None);
-    let (end, panic) = match r {
+    let (mut end, mut panic) = match r {
         Ok(Ok(())) => (RunEnd::Ok, None),
         Ok(Err(e)) => (classify_error(&e), None),
         Err(p) => (RunEnd::Panicked, Some(p)),
     };
+    if p.resume && resumable(&sh.trace.lock().unwrap(), &end) {
+        HOOK_SHARED.with(|h| *h.borrow_mut() = Some(sh.clone()));
+        let r = crate::framework::guarded(|| config.heuristic().execute(&EP, &mut state));
+        HOOK_SHARED.with(|h| *h.borrow_mut() = None);
+        (end, panic) = match r {
+            Ok(Ok(())) => (RunEnd::Ok, None),
+            Ok(Err(e)) => (classify_error(&e), None),
+            Err(p) => (RunEnd::Panicked, Some(p)),
+        };
+    }
     let trace = std::mem::take(&mut *sh.trace.lock().unwrap());
     let final_levels = snapshot(&state);
     let logcfg_present = state.contains::<LogConfig<EP>>();
